@@ -7,4 +7,4 @@ cmp -s /repo/go.sum go.sum || cp /repo/go.sum go.sum
 mkdir -p bin
 exec 9>bin/.buildlock
 flock 9
-go build -tags verif -o bin/verif ./cmd/verif
+go build -tags verif,mapseed -overlay overlay/mapseed.json -o bin/verif ./cmd/verif
